@@ -387,7 +387,7 @@ def run(ctx):
     f_vl = ctx.anchor("segment.GFA1.validate_length",
                       seg1.find_method("validate_length"))
     PH = repo.cls("Placeholder")
-    for seq, ln_tag in itertools.product(["*", "ACG"], [None, 3, 4]):
+    for seq, ln_tag in itertools.product(["*", "ACG"], [None, 3, 4, 0]):
         ctx.instance(R)
         data = {"name": "a",
                 "sequence": Abs(PH, label="*", __bool__=False)
@@ -506,6 +506,90 @@ def run(ctx):
             if not ok:
                 ctx.violation(R, f_fp.short, "seq=%s,s_beg=%s,s_end=%s" % (
                     seq, fmtp(b), fmtp(e_)), "outcome %r" % (out[0:2],))
+    ctx.exhaustive[R] = True
+
+    # ------------------------------------------------------------------
+    R = "C04.alignment_dispatch"
+    ctx.rule(R, "Alignment._from_string(string, version, valid): decision "
+             "table over the first non-digit character: '*' alone is the "
+             "placeholder; after at least one digit, M I D P go to the CIGAR "
+             "parser, = X S H N only in GFA1, ',' to the trace parser only "
+             "in GFA2; everything else is a FormatError; the CIGAR parser is "
+             "called with the caller's version and valid (its own defaults "
+             "would accept GFA1-only codes in GFA2)", floor=40)
+    AL = repo.cls("Alignment")
+    CG = repo.cls("CIGAR")
+    TR = repo.cls("Trace")
+    f_afs = ctx.anchor("Alignment._from_string",
+                       AL.find_method("_from_string"))
+    f_cfs = ctx.anchor("CIGAR._from_string", CG.find_method("_from_string"))
+
+    def callee_default(func, pname):
+        a = func.node.args
+        names = [x.arg for x in a.args]
+        if pname in names:
+            i = names.index(pname) - (len(names) - len(a.defaults))
+            if i >= 0 and isinstance(a.defaults[i], ast.Constant):
+                return a.defaults[i].value
+        return "<no default>"
+
+    class DispatchHooks(LineHooks):
+        def before_inline(self, ev, func, args, kwargs):
+            if func.name == "_from_string" and func.cls is CG:
+                names = func.params[1:]
+                bound = dict(zip(names, args[1:]))
+                bound.update(kwargs)
+                ev.events.append((
+                    "cigar", bound.get("version",
+                                       callee_default(func, "version")),
+                    bound.get("valid", callee_default(func, "valid"))))
+                return "<cigar>"
+            if func.name == "_from_string" and func.cls is TR:
+                ev.events.append(("trace",))
+                return Abs(TR, label="trace")
+            if func.name == "validate":
+                return None
+            return NotImplemented
+
+        def construct(self, ev, cls, args, kwargs):
+            if cls.name == "AlignmentPlaceholder":
+                return "<placeholder>"
+            return super().construct(ev, cls, args, kwargs)
+    for version, valid in itertools.product(("gfa1", "gfa2"), (False, True)):
+        for text in ["*", "**", "", "12", "M", "1*", "1 M"] + \
+                ["12%s3M" % c for c in "MIDP=XSHN,"] + \
+                ["1%s" % c for c in "MIDP=XSHN,"] + ["1Q", "1m", "1$"]:
+            ctx.instance(R)
+            out = eval_function(repo, f_afs, [AL, text, version, valid],
+                                hooks=DispatchHooks(repo))
+            digits = len(text) - len(text.lstrip("0123456789"))
+            c = text[digits:digits + 1]
+            if text == "*":
+                want = ("return", "<placeholder>")
+            elif digits and c in "MIDP" and c:
+                want = ("cigar", version, valid)
+            elif digits and c in "=XSHN" and c and version == "gfa1":
+                want = ("cigar", version, valid)
+            elif digits and c == "," and version == "gfa2":
+                want = ("trace",)
+            else:
+                want = ("raise", "FormatError")
+            if want[0] == "return":
+                ok = out[0] == "return" and out[1] == want[1]
+            elif want[0] == "raise":
+                ok = out[0] == "raise" and str(out[1]).endswith(want[1])
+            else:
+                ok = out[0] == "return" and want in out[2]
+            ctx.oblige(ok)
+            if not ok:
+                ctx.violation(
+                    R, f_afs.short, "version=%s,first=%r" % (
+                        version, c if digits or text == "*" else text[:1]),
+                    "for %r (valid=%s): outcome %r, parser calls %r; the "
+                    "table requires %r" % (
+                        text, valid, out[0:2],
+                        [e for e in out[2] if e[0] in ("cigar", "trace")],
+                        want))
     ctx.exhaustive[R] = True
 
     # ------------------------------------------------------------------
